@@ -164,8 +164,19 @@ theorem C06_restore_reachable (env : Env σ) (d : Doc) (hc : conformantB d = tru
   C06_restore d s.hv f h acc vs hh hval (fun v hv => (C06_stored_values env d hc s hr h vs hval v hv).1)
 #assert_axioms C06_restore_reachable
 
+/-- (restore, "together with the ancestors") a history target with a stored value also enters, for
+    every stored state, all its proper ancestors below the history state's parent — e.g. the
+    intermediate compound states of a deep history -/
+theorem C06_restore_ancestors (d : Doc) (hv : Table) (f h : Nat) (acc : EntryAcc) (vs : List Nat)
+    (hh : isHistoryState d h = true) (hval : tget hv h = some vs) :
+    ∀ v ∈ vs, ∀ a ∈ getProperAncestors d v (getState d h).parent,
+      a ∈ (addDesc d hv (f + 2) h acc).toEnter :=
+  history_restores_ancestors hv f h acc vs hh hval
+#assert_axioms C06_restore_ancestors
+
 /-- What is proved of the statement: record (exact), restore (every recorded state is entered;
     the step equation shows the default is not used), default (used iff no value; content position).
+    `C06_restore_ancestors`: the ancestors of the stored states below the history's parent are entered too.
     For whole runs: `C06_stored_values` (every stored value of every reachable session consists of
     non-history children / atomic descendants of the history's parent) and `C06_restore_reachable`.
     **Missing** for the exact characterisation "re-enters exactly the recorded states together with
@@ -200,6 +211,10 @@ example : (computeEntrySet exDoc2 [(5, [4])] [13]).toEnter = [4, 2] := by decide
 -- without a value the default transition is followed and its content registered for the parent
 example : (computeEntrySet exDoc2 [] [13]).toEnter = [3, 2] ∧
           (computeEntrySet exDoc2 [] [13]).histContent = [(2, 7)] := by decide
+
+-- `C06_restore_ancestors` on C01's exDocH (deep history 5 of state 2, stored value [4], 4 ⊂ 3 ⊂ 2): 3 is entered
+example : getProperAncestors exDocH 4 (getState exDocH 5).parent = [3] ∧
+    3 ∈ (addDesc exDocH [(5, [4])] 3 5 {}).toEnter := by decide
 
 -- hypotheses of `C06_stored_values` / `C06_restore_reachable` on a concrete run: exDoc2 is conformant,
 -- and after start-up and event "x" (transition 10 leaves state 2 while 3 is active) the reachable
